@@ -8,3 +8,11 @@ PROPS["C18"] = {
     "probes": [{"file": "Probes/C18.v"}],
     "assumptions": ["String::parse::<u16>, Display and TryFrom dispatch are std/rustc", "a dumped table is the function on its whole domain (dump_tables iterates the complete domain: all i8, u8, u16, all digit strings of length <= 5)"],
 }
+
+T3 = ["hand transcription of read.rs, writer.rs, builder.rs, walk.rs, join_pool.rs, trace.rs, atom.rs into coq/Model/*.v, tied to the code by the correspondence suites (harness/src/bin/corr.rs -> coq/Corr/cases_*.v evaluated by coqc/vm_compute)"]
+PROPS["C08"] = {
+    "deps": ["Proofs/WalkInv.vo", "Proofs/ReaderConf.vo"],
+    "props": "Props/C08.v",
+    "suites": [("reader", 800, 20000), ("walk", 600, 12000), ("hist", 300, 4000)],
+    "assumptions": ["followers are passive: read/walk never inspect a follower's state, so the event list is a function of the input alone (checked by feeding four followers the same input)"],
+}
